@@ -46,6 +46,26 @@ NOTES = {
  "C13-2a": "a concurrency change: invisible to C13's sequential grid by nature, caught by C10 (schedules)",
  "C16-2b": "a concurrency change: invisible to C16's sequential tables by nature, caught by C10 (schedules)",
  "C13-1b": "first run ended in a harness error (the fixture store could not be built); C13 now judges the fixture-building requests themselves",
+ "C01-5b": "first run of C01 missed it (text leaves were ASCII because TextString could not encode anything else; that defect is repaired): every text leaf now carries non-ASCII and non-normalised text one time in four",
+ "C02-5a": "first run of C02 ended in a harness error (the malformed replacement answers left a response path unclassified and the path-coverage guard fired first): genuine buckets are now reported before that guard",
+ "C03-5b": "first run of C03 missed it (policies were fixed for the length of a history): histories gained steps that replace or remove a user policy in the shared policy store",
+ "C04-5b": "first run of C04 missed it (key pairs carried masks only in the private/public templates): key pairs gained a mask in the common template, overridden or inherited",
+ "C05-5b": "first run of C05 missed it (mask lists of the pie path were built from an integer: unique flags in enumeration order): lists now also come reversed and with repeated flags",
+ "C06-5b": "first run of C06 missed it (an IV was always supplied where the mode wants one, and a derivation was made once): DeriveKey by encryption without IV, and every derivation made twice",
+ "C07-5a": "first run of C07 missed it (objects were destroyed in the state they were created in): destroy steps gained a life before (activate/cease, compromise)",
+ "C07-5b": "first run of C07 missed it (every Destroy came from the owner): shared objects under an all-permissive policy, destroyed by somebody else",
+ "C08-5a": "first run of C08 missed it (engine-level requests, no connection; C11, C12 and C02 caught it): one batch in three also travels over a real connection behind a request with its own Maximum Response Size",
+ "C10-5b": "first run of C10 missed it (the harness built the sessions itself, around ONE engine): sessions are now made by KmipServer._setup_connection_handler of a bare server object and whatever engine they got is scheduled",
+ "C11-5a": "first run of C11 missed it (no request above a few kilobytes; irregular connections were left to C12, which caught it): a megabyte request in front of the probe, and irregular connections of well-formed requests are judged",
+ "C11-5b": "first run of C11 missed it (Time Stamps were absent, stale or far in the future): acceptable Time Stamps from skewed clocks in prefix and probe",
+ "C12-5a": "first run of C12 missed it (batch item IDs of one byte; C02 and C01 caught it): IDs of 5, 8, 16 and 24 bytes",
+ "C14-5a": "first run of C14 missed it (attribute values never changed after registration): ModifyAttribute of one Object Group / Application Specific Information instance between Locates",
+ "C14-5b": "first run of C14 missed it (stores of at most a dozen objects): stores of several hundred objects with pages and walks beyond position 500",
+ "C15-5b": "first run of C15 missed it (ASCII pools): pools carry canonically equivalent Unicode spellings",
+ "C16-5b": "first run of C16 missed it (the library's writers drop the later fields, so the case never carried them; the ciphertext was invalid anyway): requests written with a later version's rules, each later field alone, valid GCM tag",
+ "C17-5b": "first run of C17 missed it (distinct common names only): the same common name several times",
+ "C19-5a": "first run of C19 missed it (Check constraints drawn from large ranges, mask from 1): zero is drawn explicitly - which also uncovered the rekey date defect (repo 1a7f9cc)",
+ "C20-5a": "first run of C20 missed it (no identifier-less item behind a Locate that singles out one object): batch grid gained placeholder items behind Locate/Get/Register",
 }
 rows = {}
 for log in sys.argv[1:]:
